@@ -17,7 +17,7 @@ LEVEL = "exploration"
 TECHNIQUE = ("runtime monitoring: lookup probes + IAddrListener recorder on the real AddrMap/TorState under a "
              "virtual clock (task.Clock scheduler, patched utcnow), reference address-map model as oracle, "
              "generated ADDRMAP/clock histories judged after every step")
-LEVEL_TEXT = ("Held on the executions observed: ~25k (quick) to ~1.7M (thorough) generated histories of ADDRMAP "
+LEVEL_TEXT = ("Held on the executions observed: ~25k (quick) to ~1M (thorough) generated histories of ADDRMAP "
               "lines (all wire forms) and clock advances over 1-4 names with expiries from -1 day to +30 days; after every "
               "step every name and every address ever mapped is probed and the listener log of that step compared with the "
               "model. Sampling, not a proof for unexplored histories.")
@@ -53,9 +53,10 @@ FLOORS = {
               "expiries_in_model": 3000, "state_route_events": 300, "bootstrap_mappings": 100,
               "reach:txtorcon.addrmap:Addr.update": 5000, "reach:txtorcon.addrmap:Addr._expire": 1500,
               "reach:txtorcon.torstate:TorState._addr_map": 300},
-    "thorough": {"evaluations": 80000, "lookups_compared": 1000000, "listener_calls_seen": 100000,
-                 "expiries_in_model": 80000, "state_route_events": 8000, "bootstrap_mappings": 2500,
-                 "reach:txtorcon.addrmap:Addr.update": 120000, "reach:txtorcon.addrmap:Addr._expire": 40000},
+    "thorough": {"evaluations": 80000, "lookups_compared": 1200000, "listener_calls_seen": 250000,
+                 "expiries_in_model": 100000, "state_route_events": 15000, "bootstrap_mappings": 4000,
+                 "reach:txtorcon.addrmap:Addr.update": 250000, "reach:txtorcon.addrmap:Addr._expire": 100000,
+                 "reach:txtorcon.torstate:TorState._addr_map": 15000},
 }
 
 EPOCHS = ["2026-03-01 00:00:00", "2024-02-28 23:59:50", "2025-12-31 23:59:59", "2013-04-03 06:28:52",
@@ -491,14 +492,19 @@ def judge(case, model, am, lst, mark, step, rec, V, state, names, gone=()):
             cls = "error-on-live-name" if model.names[nm].history[-1][1] else "error-on-new-name"
         detail = {"name": nm, "step": step, "heard": per.get(nm, []), "acceptable": acc, "now": model.now}
         want = max(acc, key=len)
+        said = False
         for what in ("added", "expired"):
             g, lo, hi = got.count(what), min(a.count(what) for a in acc), max(a.count(what) for a in acc)
             if g > hi:
+                said = True
                 V("spurious-" + what, cls, detail, hard=False)
             elif g < lo:
+                said = True
                 V("missing-" + what, cls, detail, hard=False)
-        if sorted(got) == sorted(want) and got != want:
-            V("listener-order", cls, detail, hard=False)
+        if not said:
+            # counts are individually possible but the sequence is none of the acceptable ones
+            # (wrong order, or one half of an added+expired pair)
+            V("listener-order" if sorted(got) == sorted(want) else "listener-sequence", cls, detail, hard=False)
 
 
 class _NullCapture(object):
@@ -550,7 +556,7 @@ def plan(tier, seed):
             specs.append({"route": "state", "n": 400})
     else:
         for _ in range(32):
-            specs.append({"route": "addrmap", "n": 50000, "timeout_s": 3000})
+            specs.append({"route": "addrmap", "n": 30000, "timeout_s": 3000})
         for _ in range(16):
-            specs.append({"route": "state", "n": 6000, "timeout_s": 3000})
+            specs.append({"route": "state", "n": 4000, "timeout_s": 3000})
     return specs
